@@ -11,12 +11,13 @@ import (
 	"go/constant"
 	"go/token"
 	"go/types"
+	"strings"
 )
 
 type writeTarget struct {
 	heap    string
-	expr    ast.Expr       // slice or pointer expression (evaluated pre-loop), or nil
-	fc      *FuncContract  // callee contract whose assigns are to be instantiated
+	expr    ast.Expr      // slice or pointer expression (evaluated pre-loop), or nil
+	fc      *FuncContract // callee contract whose assigns are to be instantiated
 	call    *ast.CallExpr
 	fi      *FuncInfo
 	unknown bool
@@ -259,17 +260,36 @@ func (x *Exec) rootedAt(e ast.Expr, o types.Object) bool {
 }
 
 func (x *Exec) havocLoop(st *State, lc *LoopContract, ord int, pos token.Pos, nodes ...ast.Node) {
-	before := st.heaps["H_Slice"]
+	before := map[string]*Term{}
+	for k, v := range st.heaps {
+		before[k] = v
+	}
 	x.havocLoop0(st, lc, ord, pos, nodes...)
-	if h := st.heaps["H_Slice"]; h != nil && h != before {
-		// Every slice header stored in the heap is a well-formed header
-		// whose region was allocated before now: true in every reachable
-		// state (headers are valid when stored, the counter only grows),
-		// and needed for headers the invariants quantify over.
+	// Every value stored in the heap satisfies its type invariant: slice
+	// headers (also inside structs) are well formed and their regions were
+	// allocated before now, pointers are valid. True in every reachable
+	// state (values are valid when stored, the counter only grows), and
+	// needed for cells the invariants quantify over.
+	for _, hn := range sortedKeys(st.heaps) {
+		h := st.heaps[hn]
+		ty := x.heapElemTy[hn]
+		if h == before[hn] || ty == nil {
+			continue
+		}
 		r := BoundVar{Name: x.freshBound("r"), Sort: SInt}
-		i := BoundVar{Name: x.freshBound("i"), Sort: SInt}
-		cell := Select(Select(h, mk(r.Name, SInt)), mk(i.Name, SInt))
-		st.assume(Forall([]BoundVar{r, i}, wfSlice(cell, st.alloc), cell))
+		switch {
+		case strings.HasPrefix(hn, "H_"):
+			i := BoundVar{Name: x.freshBound("i"), Sort: SInt}
+			cell := Select(Select(h, mk(r.Name, SInt)), mk(i.Name, SInt))
+			if inv := x.typeInv(cell, ty, st.alloc); !isLit(inv, "true") {
+				st.assume(Forall([]BoundVar{r, i}, inv, cell))
+			}
+		case strings.HasPrefix(hn, "P_"):
+			cell := Select(h, mk(r.Name, SInt))
+			if inv := x.typeInv(cell, ty, st.alloc); !isLit(inv, "true") {
+				st.assume(Forall([]BoundVar{r}, inv, cell))
+			}
+		}
 	}
 }
 
